@@ -134,12 +134,16 @@ impl Watchdog {
 }
 
 pub fn case_time_limit(thorough: bool) -> u64 {
-    std::env::var("GV_CASE_LIMIT_S").ok().and_then(|s| s.parse().ok()).unwrap_or(if thorough { 300 } else { 90 })
+    std::env::var("GV_CASE_LIMIT_S").ok().and_then(|s| s.parse().ok()).unwrap_or(if thorough { 900 } else { 90 })
 }
 
 pub fn worker(cfg: &WorkerCfg) -> Value {
     let gp = cfg.profile.unwrap_or(cfg.prop);
     let mut profile = gen::profile(gp, cfg.thorough);
+    if std::env::var_os("GV_NO_BIG").is_some() {
+        // sanitizer flavours: no 10^5-element starting maps
+        profile.big_cases = false;
+    }
     if std::env::var_os("GV_MIRI_PROFILE").is_some() {
         // Miri executes ~100 checked operations per second: small maps, short histories
         profile.many_max = 18;
